@@ -824,6 +824,7 @@ def fals_backend(ctx, case):
     from pulser.backend import Occupation, CorrelationMatrix, Energy, EnergyVariance, EnergySecondMoment
     from pulser.backend.observable import Observable
     from emu_base.utils import observable_aggregation_kwargs
+    from emu_mps.observables import EntanglementEntropy
     from props import _dense_ref as ref
 
     n, steps = case["n"], case["steps"]
@@ -844,6 +845,7 @@ def fals_backend(ctx, case):
             Hd = _dense_mpo(hamiltonian.factors).numpy()
             occ, cor, e, m2, n2 = _mps_refs(psi, Hd, len(state.factors), state.factors[0].shape[1])
             seen[len(seen)] = dict(occ=occ, cor=cor, e=e, m2=m2, n2=n2, hs=float(np.abs(Hd).sum(axis=1).max()),
+                                   psi=psi.reshape(-1),
                                    chi=max(f.shape[2] for f in state.factors),
                                    settings=(state.precision, state.max_bond_dim))
             return torch.tensor(float(len(seen) - 1))
@@ -852,11 +854,12 @@ def fals_backend(ctx, case):
         warnings.simplefilter("ignore")
         cfg = emu_mps.MPSConfig(observables=[Occupation(evaluation_times=et), CorrelationMatrix(evaluation_times=et),
                                              Energy(evaluation_times=et), EnergyVariance(evaluation_times=et),
-                                             EnergySecondMoment(evaluation_times=et), DenseProbe()],
+                                             EnergySecondMoment(evaluation_times=et), DenseProbe()] +
+                                [EntanglementEntropy(q, evaluation_times=et, tag_suffix=f"cut{q}") for q in range(n - 1)],
                                 log_level=logging.CRITICAL, optimize_qubit_ordering=False, num_gpus_to_use=0,
                                 **_trunc(case))
         res = emu_mps.MPSBackend._run_from_sequence_data(ref.to_sequence_data(prob), cfg)
-    sfx = "-truncated" if case.get("trunc") else ""
+    sfx = "-truncated" if case.get("trunc") and case["trunc"]["max_bond_dim"] < 1024 else ""
 
     def bad(what, key):
         ctx.violation(f"backend run ({case.get('trunc')}): " + what, {"case": case, "finding_key": key})
@@ -881,6 +884,16 @@ def fals_backend(ctx, case):
             bad(f"energy variance at t={t}: {var} vs {pr['m2'] - pr['e'] ** 2} on the same state", "mps-variance" + sfx)
         if var < -1e-12 * max(1.0, pr["m2"]) - _tol_m2(n, 1.0, 0.0):
             bad(f"energy variance at t={t} is negative: {var}", "mps-variance-range" + sfx)
+        for q in range(n - 1):
+            S = float(res.get_result(f"entanglement_entropy_cut{q}", t))
+            S_ref = _schmidt_entropy(pr["psi"] / math.sqrt(n2), n, 2, q)
+            kk = min(q + 1, n - q - 1)
+            # the Schmidt values themselves carry the run's truncation noise only through the state, which is the same
+            if not (math.isfinite(S) and abs(S - S_ref) <= 1e-7 * max(1.0, S_ref)):
+                bad(f"entanglement entropy at cut {q} and t={t}: reported {S}, Schmidt spectrum of the state handed to "
+                    f"the callbacks gives {S_ref}", "entropy-not-definition")
+            if not (math.isfinite(S) and -1e-9 <= S <= kk * math.log(2) + 1e-7):
+                bad(f"entanglement entropy at cut {q} and t={t} is {S}, outside [0, log 2^{kk}]", "entropy-out-of-range")
     return {"max_chi": max(chis), "settings": list(seen[0]["settings"]) if seen else None}
 
 
@@ -890,6 +903,8 @@ def gen_backend_case(rng, tight):
     c["steps"] = rng.choice([2, 3, 4])  # >= 2 evaluation times with different drives on the SAME Hamiltonian object
     if tight:
         c["trunc"] = {"max_bond_dim": rng.choice([2, 2, 3, 4]), "precision": rng.choice([1e-5, 1e-2, 1e-1])}
+    elif rng.random() < 0.7:  # very fine precision: numerically-zero Schmidt values are kept in the state
+        c["trunc"] = {"max_bond_dim": 1024, "precision": rng.choice([1e-8, 1e-9, 1e-10])}
     return c
 
 # ------------------------------------------------------------------------------------------------
@@ -1110,6 +1125,158 @@ def gen_precision_case(rng, rep):
         c["center"] = rng.choice([None] + list(range(n)))
     return c
 
+# ------------------------------------------------------------------------------------------------
+# entanglement entropy on FRESH states whose bond dimension exceeds the Schmidt rank (the other observables of
+# fals_mps orthogonalise the state back and forth first, which removes every redundant bond direction)
+def _schmidt_entropy(v, n, d, cut):
+    """definition: -sum p log p over the squared Schmidt values of the normalised dense state across cut|cut+1"""
+    import numpy as np
+    s = np.linalg.svd(np.asarray(v).reshape(d ** (cut + 1), -1), compute_uv=False)
+    p = s ** 2
+    p = p / p.sum()
+    p = p[p > 1e-300]
+    return float(-(p * np.log(p)).sum())
+
+
+def _entropy_state(case):
+    """factors of the (unnormalised, non-canonical) state described by the case"""
+    import torch
+    from emu_mps.algebra import add_factors
+
+    g = torch.Generator()
+    g.manual_seed(case["seed"])
+    n, d, kind = case["n"], case["d"], case["state"]
+    rnd = lambda *shape: torch.randn(*shape, generator=g, dtype=torch.complex128)  # noqa: E731
+
+    def pad(fs, k):
+        out = []
+        for i, f in enumerate(fs):
+            l, _, r = f.shape
+            L, R = (l if i == 0 else l + k), (r if i == len(fs) - 1 else r + k)
+            t = torch.zeros(L, d, R, dtype=torch.complex128)
+            t[:l, :, :r] = f
+            out.append(t)
+        return out
+
+    def gauge(fs):
+        out = [f.clone() for f in fs]
+        for i in range(len(out) - 1):
+            chi = out[i].shape[2]
+            G = rnd(chi, chi) + 2.0 * torch.eye(chi, dtype=torch.complex128)
+            out[i] = torch.tensordot(out[i], G, dims=1)
+            out[i + 1] = torch.tensordot(torch.linalg.inv(G), out[i + 1], dims=1)
+        return out
+
+    base_bonds = [1] + [min(case["chi"], d ** min(i, n - i)) for i in range(1, n)] + [1]
+    if kind == "fat":  # uniform bond dimension chi, larger than the Schmidt rank near the ends
+        bonds = [1] + [case["chi"]] * (n - 1) + [1]
+        fs = [rnd(bonds[i], d, bonds[i + 1]) for i in range(n)]
+    elif kind == "zero-padded":
+        fs = pad([rnd(base_bonds[i], d, base_bonds[i + 1]) for i in range(n)], case["pad"])
+    elif kind == "padded-gauged":
+        fs = gauge(pad([rnd(base_bonds[i], d, base_bonds[i + 1]) for i in range(n)], case["pad"]))
+    elif kind == "rank-deficient":  # every bond matrix is a product through a smaller dimension
+        fs = []
+        for i in range(n):
+            l, r = (1 if i == 0 else case["chi"]), (1 if i == n - 1 else case["chi"])
+            f = rnd(l, d, r)
+            if i < n - 1:
+                f = torch.tensordot(f, rnd(r, 1) @ rnd(1, r) + (rnd(r, 1) @ rnd(1, r) if case["chi"] > 2 else 0), dims=1)
+            fs.append(f)
+    elif kind == "sum-identical":  # psi + psi through add_factors, no truncation: bonds double, ranks do not
+        one = [rnd(base_bonds[i], d, base_bonds[i + 1]) for i in range(n)]
+        fs = add_factors(one, [f.clone() for f in one])
+    elif kind in ("ghz-inflated", "product-inflated"):
+        fs = []
+        for i in range(n):
+            l, r = (1 if i == 0 else 2), (1 if i == n - 1 else 2)
+            f = torch.zeros(l, d, r, dtype=torch.complex128)
+            if kind == "ghz-inflated":
+                for a in range(2):
+                    f[min(a, l - 1), a, min(a, r - 1)] = 1.0
+            else:
+                f[0, :, 0] = rnd(d)
+            fs.append(f)
+        fs = gauge(pad(fs, case["pad"]))
+    else:
+        raise ValueError(kind)
+    return fs
+
+
+def fals_entropy(ctx, case):
+    import numpy as np
+    import torch
+    from emu_mps.mps import MPS
+    from emu_mps.observables import EntanglementEntropy
+
+    n, d = case["n"], case["d"]
+    fs = _entropy_state(case)
+    if case.get("apply") is not None:  # a single-qubit operator applied through MPS.apply (no truncation)
+        g = torch.Generator()
+        g.manual_seed(case["seed"] + 1)
+        tmp = MPS([f.clone() for f in fs], num_gpus_to_use=0, eigenstates=_eig(d))
+        tmp.apply(case["apply"], torch.randn(d, d, generator=g, dtype=torch.complex128))
+        fs = tmp.factors
+    psi = _dense_state(fs).numpy().copy()
+    nrm = float(np.linalg.norm(psi.reshape(-1)))
+    if not nrm > 1e-8:
+        return {"skipped": "zero state"}
+    fs = [f.clone() for f in fs]
+    k0 = case["apply"] if case.get("apply") is not None else 0
+    fs[k0] = fs[k0] / nrm  # scaling the orthogonality centre keeps the declared centre honest
+    v = psi.reshape(-1) / nrm
+
+    def make():
+        st = MPS([f.clone() for f in fs], num_gpus_to_use=0, eigenstates=_eig(d),
+                 orthogonality_center=None if case.get("apply") is None else case["apply"])
+        if case.get("pre_center") is not None:
+            st.orthogonalize(case["pre_center"])
+        return st
+
+    shared = make()
+    worst = 0.0
+    for cut in range(n - 1):
+        S_ref = _schmidt_entropy(v, n, d, cut)
+        kk = min(cut + 1, n - cut - 1)
+        for how, st in (("fresh", make()), ("same-object", shared)):
+            S = float(EntanglementEntropy(cut).apply(state=st))
+            if not (math.isfinite(S) and abs(S - S_ref) <= 1e-8 * max(1.0, S_ref)):
+                ctx.violation(f"entanglement entropy at cut {cut}|{cut + 1} ({how}, {case['state']} state, bonds "
+                              f"{[f.shape[2] for f in fs[:-1]]}): reported {S}, Schmidt spectrum of the contracted state gives {S_ref}",
+                              {"case": case, "cut": cut, "finding_key": "entropy-not-definition"})
+            if not (math.isfinite(S) and -1e-9 <= S <= kk * math.log(d) + 1e-8):
+                ctx.violation(f"entanglement entropy at cut {cut}|{cut + 1} ({how}, {case['state']} state) is {S}, outside "
+                              f"[0, log {d}^{kk}]", {"case": case, "cut": cut, "finding_key": "entropy-out-of-range"})
+            if math.isfinite(S):
+                worst = max(worst, abs(S - S_ref))
+        after = _dense_state(shared.factors).numpy().reshape(-1)
+        if not _close(after, v, 1.0):
+            ctx.violation("computing the entanglement entropy changed the state", {"case": case, "finding_key": "mps-state-changed"})
+    return {"worst_abs": worst}
+
+
+ENTROPY_STATES = ["fat", "zero-padded", "padded-gauged", "rank-deficient", "sum-identical", "ghz-inflated", "product-inflated"]
+
+
+def gen_entropy_case(rng, state=None, d=None):
+    d = d or rng.choice([2, 2, 3])
+    n = rng.randint(3, 6) if d == 2 else rng.randint(3, 4)
+    c = {"kind": "fals_entropy", "state": state or rng.choice(ENTROPY_STATES), "d": d, "n": n, "seed": rng.getrandbits(40),
+         "chi": rng.choice([2, 3, 4, 6]), "pad": rng.choice([1, 2, 3]),
+         "pre_center": rng.choice([None, None, None] + list(range(n))), "apply": None}
+    if rng.random() < 0.2:
+        c["apply"], c["pre_center"] = rng.randrange(n), None
+    return c
+
+
+def entropy_sweep(rng):
+    """always run: every kind of redundant state, qubit and qutrit (the demo's n=5, chi in {4, 6} included)"""
+    out = [dict(gen_entropy_case(rng, st, d), pre_center=None, apply=None, sweep=True) for st in ENTROPY_STATES for d in (2, 3)]
+    for chi in (4, 6):
+        out.append({"kind": "fals_entropy", "state": "fat", "d": 2, "n": 5, "seed": rng.getrandbits(40), "chi": chi, "pad": 1,
+                    "pre_center": None, "apply": None, "sweep": True})
+    return out
+
 
 def gen_fals_case(rng, kind):
     seed = rng.getrandbits(40)
@@ -1193,7 +1360,7 @@ def fill_sweep(rng):
 
 
 FALS = {"fals_sv": fals_sv, "fals_dm": fals_sv, "fals_mps": fals_mps, "fals_fill": fals_fill,
-        "fals_backend": fals_backend, "fals_precision": fals_precision}
+        "fals_backend": fals_backend, "fals_precision": fals_precision, "fals_entropy": fals_entropy}
 
 
 def corpus_cases():
@@ -1224,6 +1391,8 @@ def run(ctx):
     fcases += fill_sweep(rng)
     fcases += trunc_sweep(rng)
     fcases += [gen_backend_case(rng, tight=(i % 3 != 2)) for i in range(ctx.n(3, 15))]
+    fcases += entropy_sweep(rng)
+    fcases += [gen_entropy_case(rng) for _ in range(ctx.n(20, 250))]
     for rep, nq, nt in (("sv", 10, 100), ("dm", 6, 60), ("mps", 10, 100)):
         fcases += [gen_precision_case(rng, rep) for _ in range(ctx.n(nq, nt))]
     for kind, nq, nt in (("fals_sv", 40, 400), ("fals_dm", 20, 200), ("fals_mps", 30, 250), ("fals_fill", 30, 250)):
@@ -1232,6 +1401,8 @@ def run(ctx):
     for c in fcases:
         info = FALS[c["kind"]](ctx, c)
         size = c.get("N") or c.get("n") or len(c.get("mask", []))
+        if c["kind"] == "fals_entropy":
+            h(f"entropy/{c['state']}/d={c['d']}")
         if c["kind"] == "fals_precision":
             h(f"precision/{c['rep']}")
             prec_worst[0] = max(prec_worst[0], (info or {}).get("worst_rel", 0.0))
@@ -1325,7 +1496,9 @@ def run(ctx):
                 "of length <= 6 (8) for the site index; falsifier: random complex unnormalised/normalised state "
                 "vectors (N 1-8), density matrices (N 1-5), non-canonical MPS (qubit 2-8, qutrit 2-5 atoms, random "
                 "bonds 1-4, orthogonality centre None or any site) with the real Hamiltonian objects, and "
-                "precision stream (generic complex128 state vectors 2-7, density matrices 2-5, MPS 2-6 atoms with truncation "
+                "entanglement entropy at every cut of fresh states with redundant bonds (fat / zero-padded / gauged / "
+                "rank-deficient / psi+psi / inflated GHZ and product states, qubit and qutrit, also after MPS.apply) and in "
+                "MPSBackend runs at precision 1e-8..1e-10; precision stream (generic complex128 state vectors 2-7, density matrices 2-5, MPS 2-6 atoms with truncation "
                 "off, every observable incl. fidelity and expectation, numpy complex128 reference at 1e-11 * scale, dtype "
                 "oracle; MPS moments re-evaluated on the same Hamiltonian object after update_H); MPSBackend runs with 2-4 "
                 "evaluation times under time-dependent drives; "
